@@ -1883,6 +1883,51 @@ func rulePlumbing(c *Ctx, rule string) {
 			}
 		}
 		c.Check(ok && n > 0, rule, "Track.Add: delta on the first message, 0 on the following, order kept", p.Pos(add.Pos()), "two-message Add on an empty track", why)
+		// (e) Add stores whatever event bytes it is given: the reader hands every decoded event to it, including sysex
+		// packets without F7, F7 continuation / escape packets and metas of any type — a filter here loses file content
+		for _, b0 := range []int64{0xF0, 0xF7, 0xFF, 0x90} {
+			ex := NewExec(p)
+			st := ex.NewState()
+			tobj := ex.newObj(st, ex.zeroOf(trackT), trackT)
+			d := mkSym(ex.syms.Get("delta", 32, false))
+			body := ex.unknownSlice(st, types.Typ[types.Uint8], "rest", 0)
+			bsegs, _ := ex.sliceSegs(st, body)
+			aid := ex.newObj(st, &ArrayV{Elem: types.Typ[types.Uint8], Segs: normSegs(append([]Seg{{Elems: []Val{mkConst(b0, 8, false)}}}, bsegs...))}, nil)
+			ml := st.Arith(token.ADD, body.Len, mkConst(1, 64, true), "")
+			m := &SliceV{Obj: aid, Off: mkConst(0, 64, true), Len: ml, Cap: ml}
+			if b0 == 0xFF {
+				// any meta event except end-of-track (which closes the track): type byte 01..2E
+				tb := mkSym(ex.syms.Get("metatype", 8, false))
+				st.refineSym(tb.T.Syms[0], 1, 0x2E)
+				aid = ex.newObj(st, &ArrayV{Elem: types.Typ[types.Uint8], Segs: normSegs(append([]Seg{{Elems: []Val{mkConst(b0, 8, false), tb}}}, bsegs...))}, nil)
+				ml = st.Arith(token.ADD, body.Len, mkConst(2, 64, true), "")
+				m = &SliceV{Obj: aid, Off: mkConst(0, 64, true), Len: ml, Cap: ml}
+			}
+			mid := ex.newObj(st, &ArrayV{Elem: m1Type(add), Segs: []Seg{{Elems: []Val{m}}}}, nil)
+			one := mkConst(1, 64, true)
+			okE, whyE, nE := true, "", 0
+			for _, o := range ex.Call(st, add, []Val{&PtrV{Obj: tobj}, d, &SliceV{Obj: mid, Off: mkConst(0, 64, true), Len: one, Cap: one}}, nil) {
+				nE++
+				if o.Panic {
+					okE, whyE = false, o.Msg
+					continue
+				}
+				tsl, _ := o.St.heap[tobj].(*SliceV)
+				evs, okS := ex.sliceElems(o.St, tsl)
+				if !okS || len(evs) != 1 {
+					okE, whyE = false, fmt.Sprintf("an event starting with %02X (any further bytes) handed to Add on an open track may not be stored (%d events afterwards): the reader collects every decoded event through Add, so such events vanish from the file [%s]", b0, len(evs), outcomeWitness(o))
+					continue
+				}
+				ev, _ := evs[0].(*StructV)
+				if ms, _ := ev.Fields[fieldIndex(ev.T, "Message")].(*SliceV); ms == nil || ms.Obj != m.Obj {
+					okE, whyE = false, "the stored message is not the one given"
+				}
+				if dl, _ := ev.Fields[fieldIndex(ev.T, "Delta")].(*IntV); dl == nil || !o.St.sameInt(dl, d) {
+					okE, whyE = false, "the stored delta is not the one given"
+				}
+			}
+			c.Check(okE && nE > 0, rule, fmt.Sprintf("Track.Add stores an event starting with %02X unchanged", b0), p.Pos(add.Pos()), "any bytes after the first, any delta: one event appended, same bytes, same delta", whyE)
+		}
 	}
 }
 
